@@ -64,6 +64,27 @@ inline std::string with_ulist(const std::string& kind, const std::vector<ll>& v,
 #endif
     return "unsupported";
 }
+// two lists of the same length in the same container kind (shape + index)
+template <typename F>
+inline std::string with_ulist_pair(const std::string& kind, const std::vector<ll>& v, const std::vector<ll>& u, F&& f) {
+    if (v.size() != u.size()) return "unsupported";
+    if (kind == "vec") return f(vec_of<size_t>(v), vec_of<size_t>(u));
+#ifndef VD_LIGHT
+    if (kind == "arr") {
+        switch (v.size()) {
+            case 1: return f(arr_of<size_t,1>(v), arr_of<size_t,1>(u)); case 2: return f(arr_of<size_t,2>(v), arr_of<size_t,2>(u));
+            case 3: return f(arr_of<size_t,3>(v), arr_of<size_t,3>(u)); case 4: return f(arr_of<size_t,4>(v), arr_of<size_t,4>(u));
+            default: return "unsupported";
+        }
+    }
+    if (kind == "sv") {
+        nm::utl::static_vector<size_t, 8> a, b; a.resize(v.size()); b.resize(u.size());
+        for (size_t i = 0; i < v.size(); i++) { a[i] = v[i]; b[i] = u[i]; }
+        return f(a, b);
+    }
+#endif
+    return "unsupported";
+}
 // lists of even length up to 6 (pad widths)
 template <typename F>
 inline std::string with_ulist2(const std::string& kind, const std::vector<ll>& v, F&& f) {
@@ -109,6 +130,14 @@ using CT_LISTS_AXES_t = ctmenu<ctl<0>, ctl<0,1>, ctl<1,0>, ctl<-1,0>, ctl<0,2>>;
 #define CT_LISTS_AXES CT_LISTS_AXES_t{}
 using CT_LISTS_PAD_t  = ctmenu<ctl<1,2>, ctl<0,1>, ctl<1,0,2,1>, ctl<0,2,1,0>, ctl<1,0,1,0,1,2>>;   // pad widths
 #define CT_LISTS_PAD CT_LISTS_PAD_t{}
+using CT_LISTS_TAKE_t = ctmenu<ctl<0>, ctl<1,0>, ctl<0,0,1>, ctl<1,1>>;                              // take indices
+#define CT_LISTS_TAKE CT_LISTS_TAKE_t{}
+using CT_LISTS_RESIZE_t = ctmenu<ctl<4>, ctl<2,5>, ctl<3,1>, ctl<1,2,4>>;                           // resize target shapes
+#define CT_LISTS_RESIZE CT_LISTS_RESIZE_t{}
+using CT_LISTS_WIN_t = ctmenu<ctl<2>, ctl<1,2>, ctl<2,2>, ctl<2,1,2>>;                               // sliding windows (axis None)
+#define CT_LISTS_WIN CT_LISTS_WIN_t{}
+using CT_INTS_OFF_t = ctints<0, 1, -1, 2>;                                                          // offsets / k
+#define CT_INTS_OFF CT_INTS_OFF_t{}
 using CT_INTS_POS_t   = ctints<1, 2, 3>;
 #define CT_INTS_POS CT_INTS_POS_t{}
 using CT_INTS_AXIS_t  = ctints<0, 1, 2, -1>;
